@@ -168,6 +168,20 @@ pub fn run(ctx: &Ctx) -> Outcome {
             out.sample(Json::obj().with("config", cfg.to_json()).with("key", Json::u(k)).with("history_of_key", Json::Arr(h.iter().take(24).map(|e| e.to_json()).collect())));
         }
         if let Some((k, h)) = hr.violation {
+            if ctx.args.has("dump") {
+                // debugging aid: the whole round, all keys and all hook events, in ticket order
+                let mut lines: Vec<(u64, String)> = Vec::new();
+                for e in &r.history {
+                    lines.push((e.call, format!("t{} k{} [{}..{}] {:?}", e.thread, e.key, e.call, e.ret, e.op)));
+                }
+                for e in &r.events {
+                    lines.push((e.ticket, format!("    event t{} site {} a={:#x} b={}", e.thread, e.site, e.a, e.b)));
+                }
+                lines.sort();
+                for (_, l) in lines {
+                    eprintln!("DUMP {l}");
+                }
+            }
             history_violation(&mut out, "c01", ctx, round - 1, &cfg, k, &h, init(k));
             break;
         }
